@@ -560,18 +560,20 @@ impl DrawState {
         // Here we calculate the terminal vertical real estate that the state requires
         let full_height = self.visual_line_count(.., term_width);
 
+        // If we align to the bottom and the new height is less than before, the lines that are not
+        // used by the new content are left blank: between the printed text lines (which stay above
+        // everything for good) and the bars, so that they remain the top rows of what the next
+        // draw clears.
         let shift = match self.alignment {
-            // If we align to the bottom and the new height is less than before, clear the lines
-            // that are not used by the new content.
-            MultiProgressAlignment::Bottom if full_height < *bar_count => {
-                let shift = *bar_count - full_height;
-                for _ in 0..shift.as_usize() {
-                    term.write_line("")?;
-                }
-                shift
-            }
+            MultiProgressAlignment::Bottom if full_height < *bar_count => *bar_count - full_height,
             _ => VisualLines::default(),
         };
+        let mut pending_shift = shift.as_usize();
+        if self.lines.is_empty() {
+            for _ in 0..std::mem::take(&mut pending_shift) {
+                term.write_line("")?;
+            }
+        }
 
         // Accumulate the displayed height in here. This differs from `full_height` in that it will
         // accurately reflect the number of lines that have been displayed on the terminal, if the
@@ -598,6 +600,13 @@ impl DrawState {
                 term.write_line("")?;
             }
 
+            // The blank lines of a bottom-aligned frame go right above the first bar line
+            if matches!(line, LineType::Bar(_)) {
+                for _ in 0..std::mem::take(&mut pending_shift) {
+                    term.write_line("")?;
+                }
+            }
+
             // A zero-width first line prints nothing, so it would not consume the pending line
             // wrap left behind by the previous draw's right-edge filler and would share a row
             // with whatever was printed last. Print one of its (blank) cells up front.
@@ -616,6 +625,12 @@ impl DrawState {
                     line_height.as_usize() * term_width - line.console_width() - pad;
                 term.write_str(&" ".repeat(last_line_filler))?;
             }
+        }
+
+        // Only text lines were printed: the blank lines go below them (the first new line ends the
+        // last text line, so the cursor ends up on the last blank line)
+        for _ in 0..pending_shift {
+            term.write_line("")?;
         }
 
         term.flush()?;
